@@ -51,6 +51,27 @@ fn feature(text: &str) -> &'static str {
     "other"
 }
 
+/// a WITH clause that declares one name twice: with two different bodies (two nodes whose 4-character content-derived names collide)
+/// or with the same body (one node emitted twice)
+pub fn duplicate_cte_class(text: &str) -> &'static str {
+    // CTE heads look like `"name" ("c1", ...) AS (` right after `WITH ` or `), `
+    let mut heads: Vec<(String, usize)> = vec![];
+    let bytes = text.as_bytes();
+    let mut i = 0;
+    while let Some(p) = text[i..].find(" AS (") {
+        let at = i + p;
+        // walk back over `("cols")` and the quoted name
+        if let Some(open) = text[..at].rfind(" (") { let name = text[..open].rsplit(|c| c == ' ').next().unwrap_or("").to_string(); if name.starts_with('"') || name.starts_with('`') { heads.push((name, at + 5)); } }
+        i = at + 5;
+    }
+    let _ = bytes;
+    for a in 0..heads.len() { for b in a + 1..heads.len() { if heads[a].0 == heads[b].0 {
+        let body = |k: usize| -> &str { let start = heads[k].1; let end = if k + 1 < heads.len() { text[..heads[k + 1].1].rfind("), ").unwrap_or(text.len()) } else { text.len() }; &text[start..end.max(start)] };
+        return if body(a) == body(b) { "cte-emitted-twice" } else { "cte-name-collision" };
+    } } }
+    "duplicate-cte-unclassified"
+}
+
 struct Rendered { text: Result<String, (String, String)>, accepted: Result<(), String>, readback: Option<Result<Result<Relation, String>, (String, String)>> }
 
 fn per_dialect(rel: &Relation, d: &str) -> Rendered {
@@ -126,7 +147,7 @@ pub fn eval(case: &J) -> Outcome {
             match (pdb.query(&text), reference) {
                 (Ok(_), Ok(_)) if sql.contains("random()") => { out.tag("sqlite-executed"); out.tag("uses-random"); }   // two executions differ by construction
                 (Ok(a), Ok(b)) => { let ord = case["ordered"].as_bool().unwrap_or(false); if rows_key(&a.1, ord) != rows_key(&b.1, ord) { out.fail(&format!("C17/dialect/sqlite/different-rows/{shape}"), format!("{sql}: {text} returns {:?}, reference {:?}", a.1.iter().take(4).collect::<Vec<_>>(), b.1.iter().take(4).collect::<Vec<_>>())); } else { out.tag("sqlite-executed"); } }
-                (Err(e), _) => out.fail(&format!("C17/dialect/sqlite/not-executable/{}", sqlite_feature(&text)), format!("{sql}: rendered for SQLite as {text}: {e}")),
+                (Err(e), _) => out.fail(&format!("C17/dialect/sqlite/not-executable/{}", if e.contains("duplicate WITH table name") { duplicate_cte_class(&text) } else { sqlite_feature(&text) }), format!("{sql}: rendered for SQLite as {text}: {e}")),
                 _ => {}
             }
         }
